@@ -1251,7 +1251,7 @@ impl TieredEngine {
         let cold_results = if cold_tier_has_docs {
             let effective_ef_search = ef_search_override.or(Some(self.config.hnsw_ef_search));
             self.cold_tier
-                .knn_search_with_ef(query, k * 2, effective_ef_search)?
+                .knn_search_with_ef(query, cold_tier_candidate_count(k), effective_ef_search)?
         } else {
             vec![]
         };
@@ -1471,8 +1471,11 @@ impl TieredEngine {
         let cold_results = if cold_tier_has_docs {
             let effective_ef_search = ef_search_override.unwrap_or(self.config.hnsw_ef_search);
             let results =
-                self.cold_tier
-                    .knn_search_batch(&miss_queries, k * 2, Some(effective_ef_search))?;
+                self.cold_tier.knn_search_batch(
+                    &miss_queries,
+                    cold_tier_candidate_count(k),
+                    Some(effective_ef_search),
+                )?;
             {
                 let mut stats = self.stats.write();
                 stats.cold_tier_searches += miss_indices.len() as u64;
@@ -2065,7 +2068,7 @@ impl TieredEngine {
                         let _worker_permit = worker_permit;
                         cold_tier.knn_search_with_ef_cancel(
                             &query_vec,
-                            k * 2,
+                            cold_tier_candidate_count(k),
                             effective_ef_search,
                             Some(cold_cancel_worker.as_ref()),
                         )
@@ -2655,6 +2658,15 @@ fn normalize_in_place_if_needed(distance: DistanceMetric, embedding: &mut [f32])
     }
 
     Ok(())
+}
+
+/// Candidates requested from the cold tier for a top-`k` search: over-fetch by 2x, but never
+/// more than the cold tier accepts. The tiered engine admits `k` up to 10,000; asking the cold
+/// tier for `k * 2` made every search with `k > 5,000` fail there (and count as a cold-tier
+/// failure towards its circuit breaker).
+#[inline]
+fn cold_tier_candidate_count(k: usize) -> usize {
+    k.saturating_mul(2).min(10_000)
 }
 
 fn normalize_query_for_search<'a>(
